@@ -73,8 +73,24 @@ def build_jobs(chk: Check, thorough: bool, rng) -> List[Dict[str, Any]]:
         random.Random(chk.seed + 5).shuffle(uniq_multi)
         fs = [c["faults"] for c in singles]
         if not thorough:
+            # the words that can close a loop or move a boundary (allocation-table words, size / start / count fields, chain
+            # addresses) are always run with every value; the remaining sites are sampled
+            def loop_maker(f):
+                n = sites[f[0][0] - 1].name
+                return (n.startswith("fat") or ".sat" in n or n.endswith((".size", ".start", ".endmark")) or "fat_entry" in n or "keygroup" in n
+                        or "cluster_top" in n or n.startswith("id.num"))
+            crit = [f for f in fs if loop_maker(f)]
+            rest = [f for f in fs if not loop_maker(f)]
             srng = random.Random(chk.seed + 6)
-            fs = sorted(srng.sample(fs, min(len(fs), 520 if label == "akai" else 160)))
+            if label == "roland" and len(crit) > 360:          # 3 MB images: of the loop-makers, first every word of a USED cluster set to a
+                usedc = {c for c, _ in case["fat"]}            # link into a used cluster (loops, rho shapes, cross links), then a seeded sample
+                def linker(f):
+                    st = sites[f[0][0] - 1]
+                    return st.name.startswith("fat") and st.name[3:].isdigit() and int(st.name[3:]) in usedc and st.values[f[0][1] - 1] in usedc
+                first = [f for f in crit if linker(f)]
+                others = [f for f in crit if not linker(f)]
+                crit = first[:360] + sorted(srng.sample(others, max(0, min(len(others), 360 - len(first)))))
+            fs = crit + sorted(srng.sample(rest, min(len(rest), 260 if label == "akai" else 60)))
             multi = uniq_multi[:120 if label == "akai" else 40]
         else:
             multi = uniq_multi[:3000 if label == "akai" else 600]
